@@ -17,7 +17,7 @@ from vmon.libutil import load_definition, monitored
 LEVEL = "exploration"
 SHARDS = {"quick": 16, "thorough": 16}
 KINDS = ("integer", "float", "enumerated", "boolean", "string", "binary", "abstime", "reltime")
-MUST = ["datasets", "cells.compared", "mode.raw", "mode.derived", "files.multi", "files.truncated_tail_before_next_file", "kwargs.skip_header_bytes", "definition.form.str-path", "definition.form.Path", "apids.multi", "polymorphic.rejected", "reordered_fields.datasets", "manyrows.datasets", "files.form.generator", "files.form.iter", "files.form.tuple"] + [f"cells.{k}" for k in KINDS]
+MUST = ["datasets", "cells.compared", "mode.raw", "mode.derived", "files.multi", "files.truncated_tail_before_next_file", "kwargs.skip_header_bytes", "definition.form.str-path", "definition.form.Path", "apids.multi", "polymorphic.rejected", "polymorphic.superset", "exotic_encodings.datasets", "reordered_fields.datasets", "manyrows.datasets", "files.form.generator", "files.form.iter", "files.form.tuple"] + [f"cells.{k}" for k in KINDS]
 RULE = ("case = (flat definition: abstract root + one concrete child container per APID, each with a fixed list of "
         "parameters of random kinds/encodings; packet files: 1-3 files (30% of them ending in a truncated packet, which is no "
         "packet of the stream; sometimes with foreign prefix bytes skipped through the skip_header_bytes keyword), the definition as object / str path / Path, the files handed over as path / list / tuple / generator / iterator / map / Path list, 1-4 APIDs interleaved, values at encoding extremes "
@@ -387,6 +387,52 @@ def polymorphic(ctx, scratch):
         if not isinstance(st.exc, ValueError):
             ctx.violation("polymorphic/not-rejected", f"a stream whose APID 11 packets differ in field set gave {st.value!r} / {st.exc!r} instead of ValueError", {"order": order})
         ctx.sig("polymorphic", tuple(order))
+    # ---- one layout's field set is a strict SUPERSET of the other's (an inheritor adds a parameter): still two field sets,
+    # whichever comes first
+    ka2 = ir.Container("KA", (("p", "A"),), "CCSDSPacket", (ir.Comparison("SEL", "1"),))
+    kb2 = ir.Container("KB", (("p", "A"), ("p", "B")), "CCSDSPacket", (ir.Comparison("SEL", "2"),))
+    defn3 = load_definition(render.render_doc(ir.Doc(tuple(ts), tuple(ps), (root, ka2, kb2))))
+    for order in ([1, 2], [2, 1], [1, 1, 2], [2, 2, 1, 2]):
+        path = os.path.join(scratch, "superset.bin")
+        with open(path, "wb") as f:
+            for s_ in order:
+                f.write(bytes(P.create_ccsds_packet(bytes([s_, 9]) + (b"\x07" if s_ == 2 else b""), apid=11)))
+        st = monitored(xarr.create_dataset, path, defn3)
+        ctx.count("evaluations")
+        ctx.count("polymorphic.rejected")
+        ctx.count("polymorphic.superset")
+        if not isinstance(st.exc, ValueError):
+            ctx.violation(f"polymorphic/not-rejected/superset/{'smaller-first' if order[0] == 1 else 'larger-first'}",
+                          f"a stream whose APID 11 packets have field sets {{A}} and {{A, B}} (layout order {order}) gave {st.value!r} / {st.exc!r} instead of ValueError",
+                          {"order": order})
+        ctx.sig("polymorphic-superset", tuple(order))
+    # ---- integer encodings the XTCE schema names besides unsigned / twosComplement: whatever the parser yields for them (it reads
+    # every signed spelling as two's complement) must be what the dataset holds - the oracle here is the library's own generator
+    for encname in ("onesComplement", "signMagnitude", "twosCompliment", "signed"):
+        for width in (8, 16, 32, 64):
+            t_e = ir.PType("E_Type", "integer", ir.IntEnc(width, encname))
+            rt = ir.Container("CCSDSPacket", tuple(("p", p.name) for p in ps[:7]) + (("p", "E"),))
+            dfn = load_definition(render.render_doc(ir.Doc(tuple(ts[:7]) + (t_e,), tuple(ps[:7]) + (ir.Param("E", "E_Type"),), (rt,))))
+            path = os.path.join(scratch, "exotic.bin")
+            vals = [0, 1, (1 << (width - 1)) - 1, 1 << (width - 1), (1 << width) - 1, (1 << (width - 1)) + 1]
+            with open(path, "wb") as f:
+                for v in vals:
+                    f.write(bytes(P.create_ccsds_packet(v.to_bytes(width // 8, "big"), apid=12)))
+            with open(path, "rb") as f:
+                want = [int(pk_["E"]) for pk_ in dfn.packet_generator(f)]
+            for raw_mode in (False, True):
+                st = monitored(xarr.create_dataset, path, dfn, raw_mode)
+                ctx.count("evaluations")
+                ctx.count("exotic_encodings.datasets")
+                wit = {"encoding": encname, "width": width, "mode": "raw" if raw_mode else "derived"}
+                if st.exc is not None:
+                    ctx.violation(f"exotic-encoding/exception/{type(st.exc).__name__}/{encname}", f"create_dataset raised {st.exc!r} for a {width}-bit {encname} integer "
+                                  f"although the generator parses the packets ({want[:3]}...)", wit)
+                    continue
+                got = [int(x) for x in st.value[12]["E"].values]
+                if got != want:
+                    ctx.violation(f"exotic-encoding/cells/{encname}", f"cells {got} != values the generator yields {want}", wit)
+            ctx.sig("exotic-encoding", encname, width)
     # ---- the same field SET in a different field ORDER within one APID (two layouts listing the parameters in opposite
     # orders): one field set, so a dataset is due, and every cell belongs to the variable of its own name
     ka = ir.Container("KA", (("p", "A"), ("p", "B")), "CCSDSPacket", (ir.Comparison("SEL", "1"),))
